@@ -575,7 +575,7 @@ void campaign(Ctx& ctx)
 {
 	bool const c13 = ctx.opt.prop == "C13";
 	bool const thorough = ctx.opt.tier == "thorough";
-	int const n = thorough ? 100000 : 3000;
+	int const n = thorough ? 100000 : 10000;
 	ctx.rc_campaign("connect/accept scenarios (short)", gen_case(c13, 14), n, 40, 1);
 	ctx.rc_campaign("connect/accept scenarios (long)", gen_case(c13, 50), n / 2, 150, 2);
 }
